@@ -1,231 +1,11 @@
-(* C12 -- refutations: a rational evaluator for Dim expressions, sound w.r.t. the real semantics, used to
-   machine-check that a NON-homogeneous comparison of the current tree really decides differently after a
-   change of the length unit (and that a non-homogeneous value really breaks its scale law).
-
-   evalQ / evalbQ : evaluation over Q of the fragment without opaque functions and without pi; sqrt is
-   defined on perfect rational squares only (otherwise None).  Soundness: whenever evalQ gives Some q, the
-   real semantics Dim.eval under the valuation x |-> Q2R (rho x) gives Some (Q2R q), for EVERY interpretation
-   of the opaque functions.  A refutation is then a boolean computation (vm_compute). *)
-From Coq Require Import Reals QArith Qreals Qabs ZArith String List Bool Lia Lra FunctionalExtensionality.
+(* C12 -- refutations of the non-homogeneous obligations of the current tree, by the rational evaluator of
+   DimQ.v (sound w.r.t. the real semantics): a boolean computation shows that a comparison decides
+   differently / a value breaks its scale law after a change of the length unit. *)
+From Coq Require Import Reals QArith Qreals ZArith String List Bool Lia Lra.
 From Coq Require Import RMicromega.
-From MV Require Import Lib.Dim Gen.GenTol Proofs.DimProofs.
+From MV Require Import Lib.Dim Gen.GenTol Proofs.DimProofs Proofs.DimQ.
 Import ListNotations.
-
-Open Scope Q_scope.
-Definition Qltb (a b : Q) : bool := negb (Qle_bool b a).
-Definition absQ (x : Q) : Q := if Qle_bool 0 x then x else - x.
-Definition minQ (x y : Q) : Q := if Qle_bool x y then x else y.
-Definition maxQ (x y : Q) : Q := if Qle_bool x y then y else x.
-Definition sgnQ (x : Q) : Q := if Qltb 0 x then 1 else if Qltb x 0 then - (1) else 0.
-Fixpoint powQ (x : Q) (n : nat) : Q := match n with O => 1 | S n => x * powQ x n end.
-(* square root of a perfect rational square *)
-Definition sqrtQ (x : Q) : option Q :=
-  let q := Z.sqrt (Qnum x) # Z.to_pos (Z.sqrt (Zpos (Qden x))) in
-  if Qeq_bool (q * q) x && Qle_bool 0 q then Some q else None.
-
-Definition olift2 (f : Q -> Q -> Q) (a b : option Q) : option Q :=
-  match a, b with Some x, Some y => Some (f x y) | _, _ => None end.
-Definition ocmp2 (f : Q -> Q -> bool) (a b : option Q) : option bool :=
-  match a, b with Some x, Some y => Some (f x y) | _, _ => None end.
-
-Section EvalQ.
-Variable rho : string -> Q.
-Fixpoint evalQ (e : dexpr) : option Q :=
-  match e with
-  | Var x => Some (rho x)
-  | Const n d => Some (n # d)
-  | CPi => None
-  | Add a b => olift2 Qplus (evalQ a) (evalQ b)
-  | Sub a b => olift2 Qminus (evalQ a) (evalQ b)
-  | Mul a b => olift2 Qmult (evalQ a) (evalQ b)
-  | Div a b => match evalQ a, evalQ b with
-               | Some x, Some y => if Qeq_bool y 0 then None else Some (x / y)
-               | _, _ => None
-               end
-  | Neg a => option_map Qopp (evalQ a)
-  | Abs a => option_map absQ (evalQ a)
-  | Sqrt a => match evalQ a with Some x => sqrtQ x | None => None end
-  | Pow a n => option_map (fun x => powQ x n) (evalQ a)
-  | Sign a => option_map sgnQ (evalQ a)
-  | Min a b => olift2 minQ (evalQ a) (evalQ b)
-  | Max a b => olift2 maxQ (evalQ a) (evalQ b)
-  | Fn0 _ _ => None
-  | FnH _ _ => None
-  | Ite c a b => match evalbQ c with
-                 | Some true => evalQ a
-                 | Some false => evalQ b
-                 | None => None
-                 end
-  end
-with evalbQ (c : bexpr) : option bool :=
-  match c with
-  | BLt a b => ocmp2 Qltb (evalQ a) (evalQ b)
-  | BLe a b => ocmp2 Qle_bool (evalQ a) (evalQ b)
-  | BEq a b => ocmp2 Qeq_bool (evalQ a) (evalQ b)
-  | BAnd c d => bool2 andb (evalbQ c) (evalbQ d)
-  | BOr c d => bool2 orb (evalbQ c) (evalbQ d)
-  | BNot c => option_map negb (evalbQ c)
-  | BConst b => Some b
-  | BUnknown _ => None
-  end.
-Lemma evalQ_Ite c a b : evalQ (Ite c a b) =
-  match evalbQ c with Some true => evalQ a | Some false => evalQ b | None => None end.
-Proof. reflexivity. Qed.
-Lemma evalbQ_BLt a b : evalbQ (BLt a b) = ocmp2 Qltb (evalQ a) (evalQ b).
-Proof. reflexivity. Qed.
-Lemma evalbQ_BLe a b : evalbQ (BLe a b) = ocmp2 Qle_bool (evalQ a) (evalQ b).
-Proof. reflexivity. Qed.
-Lemma evalbQ_BEq a b : evalbQ (BEq a b) = ocmp2 Qeq_bool (evalQ a) (evalQ b).
-Proof. reflexivity. Qed.
-End EvalQ.
-Close Scope Q_scope.
-
 Open Scope R_scope.
-
-(* ------------------------------------------------------------------ Q2R and the operations *)
-Lemma Qle_bool_R x y : Qle_bool x y = rleb (Q2R x) (Q2R y).
-Proof.
-  unfold rleb. destruct (Rle_dec (Q2R x) (Q2R y)) as [H|H].
-  - apply Qle_bool_iff. apply Rle_Qle. exact H.
-  - destruct (Qle_bool x y) eqn:E; [|reflexivity]. exfalso. apply H. apply Qle_Rle. apply Qle_bool_iff. exact E.
-Qed.
-
-Lemma Qltb_R x y : Qltb x y = rltb (Q2R x) (Q2R y).
-Proof.
-  unfold Qltb, rltb. rewrite Qle_bool_R. unfold rleb.
-  destruct (Rle_dec (Q2R y) (Q2R x)), (Rlt_dec (Q2R x) (Q2R y)); simpl; try reflexivity; lra.
-Qed.
-
-Lemma Qeq_bool_R x y : Qeq_bool x y = reqb (Q2R x) (Q2R y).
-Proof.
-  unfold reqb. destruct (Req_EM_T (Q2R x) (Q2R y)) as [H|H].
-  - apply Qeq_bool_iff. apply eqR_Qeq. exact H.
-  - destruct (Qeq_bool x y) eqn:E; [|reflexivity]. exfalso. apply H. apply Qeq_eqR. apply Qeq_bool_iff. exact E.
-Qed.
-
-Lemma Q2R_0' : Q2R 0 = 0.
-Proof. exact Q2R_0. Qed.
-Lemma Q2R_1' : Q2R 1 = 1.
-Proof. unfold Q2R. simpl. lra. Qed.
-
-Lemma Q2R_abs x : Q2R (absQ x) = Rabs (Q2R x).
-Proof.
-  unfold absQ. rewrite Qle_bool_R, Q2R_0'. unfold rleb. destruct (Rle_dec 0 (Q2R x)) as [H|H].
-  - rewrite Rabs_pos_eq by exact H. reflexivity.
-  - rewrite Q2R_opp. rewrite Rabs_left by lra. reflexivity.
-Qed.
-
-Lemma Q2R_min x y : Q2R (minQ x y) = Rmin (Q2R x) (Q2R y).
-Proof. unfold minQ, Rmin. rewrite Qle_bool_R. unfold rleb. destruct (Rle_dec (Q2R x) (Q2R y)); reflexivity. Qed.
-
-Lemma Q2R_max x y : Q2R (maxQ x y) = Rmax (Q2R x) (Q2R y).
-Proof. unfold maxQ, Rmax. rewrite Qle_bool_R. unfold rleb. destruct (Rle_dec (Q2R x) (Q2R y)); reflexivity. Qed.
-
-Lemma Q2R_sgn x : Q2R (sgnQ x) = sgn (Q2R x).
-Proof.
-  unfold sgnQ, sgn. rewrite !Qltb_R, Q2R_0'. unfold rltb.
-  destruct (Rlt_dec 0 (Q2R x)); [apply Q2R_1'|].
-  destruct (Rlt_dec (Q2R x) 0); [rewrite Q2R_opp, Q2R_1'; reflexivity | apply Q2R_0'].
-Qed.
-
-Lemma Q2R_pow x n : Q2R (powQ x n) = Q2R x ^ n.
-Proof. induction n as [|n IH]; simpl; [apply Q2R_1'|]. rewrite Q2R_mult, IH. reflexivity. Qed.
-
-Lemma Q2R_sqrt x q : sqrtQ x = Some q -> 0 <= Q2R x /\ sqrt (Q2R x) = Q2R q.
-Proof.
-  unfold sqrtQ. set (r := (Z.sqrt (Qnum x) # Z.to_pos (Z.sqrt (Z.pos (Qden x))))%Q).
-  destruct (Qeq_bool (r * r) x) eqn:E; simpl; [|discriminate].
-  destruct (Qle_bool 0 r) eqn:P; [|discriminate]. intros H. inversion H; subst q.
-  apply Qeq_bool_iff in E. apply Qeq_eqR in E. rewrite Q2R_mult in E.
-  rewrite Qle_bool_R, Q2R_0' in P. unfold rleb in P. destruct (Rle_dec 0 (Q2R r)) as [Hr|]; [|discriminate].
-  rewrite <- E. split; [apply Rmult_le_pos; assumption | apply sqrt_square; assumption].
-Qed.
-
-(* ------------------------------------------------------------------ soundness of the rational evaluator *)
-Section Sound.
-Variable fn0 fnh : string -> list R -> option R.
-Variable rho : string -> Q.
-Local Notation rhoR := (fun x : string => Q2R (rho x)).
-
-Theorem evalQ_sound :
-  (forall e q, evalQ rho e = Some q -> eval fn0 fnh rhoR e = Some (Q2R q)) /\
-  (forall c b, evalbQ rho c = Some b -> evalb fn0 fnh rhoR c = Some b) /\
-  (forall l : dargs, True).
-Proof.
-  apply dim_mutind; try (intros; exact I).
-  - (* Var *) intros x q H. inversion H. reflexivity.
-  - (* Const *) intros n d q H. inversion H. cbn. unfold Q2R. simpl. reflexivity.
-  - (* CPi *) intros q H. discriminate.
-  - (* Add *) intros a IHa b IHb q H. cbn in H |- *.
-    destruct (evalQ rho a) as [x|]; [|discriminate]. destruct (evalQ rho b) as [y|]; [|discriminate].
-    rewrite (IHa x eq_refl), (IHb y eq_refl). inversion H. cbn. rewrite Q2R_plus. reflexivity.
-  - (* Sub *) intros a IHa b IHb q H. cbn in H |- *.
-    destruct (evalQ rho a) as [x|]; [|discriminate]. destruct (evalQ rho b) as [y|]; [|discriminate].
-    rewrite (IHa x eq_refl), (IHb y eq_refl). inversion H. cbn. rewrite Q2R_minus. reflexivity.
-  - (* Mul *) intros a IHa b IHb q H. cbn in H |- *.
-    destruct (evalQ rho a) as [x|]; [|discriminate]. destruct (evalQ rho b) as [y|]; [|discriminate].
-    rewrite (IHa x eq_refl), (IHb y eq_refl). inversion H. cbn. rewrite Q2R_mult. reflexivity.
-  - (* Div *) intros a IHa b IHb q H. cbn in H |- *.
-    destruct (evalQ rho a) as [x|]; [|discriminate]. destruct (evalQ rho b) as [y|]; [|discriminate].
-    rewrite (IHa x eq_refl), (IHb y eq_refl).
-    destruct (Qeq_bool y 0) eqn:E; [discriminate|]. inversion H.
-    assert (Hy : ~ (y == 0)%Q) by (intros K; apply Qeq_bool_iff in K; congruence).
-    destruct (Req_EM_T (Q2R y) 0) as [K|K].
-    + exfalso. apply Hy. apply eqR_Qeq. rewrite K, Q2R_0'. reflexivity.
-    + rewrite Q2R_div by exact Hy. reflexivity.
-  - (* Neg *) intros a IHa q H. cbn in H |- *. destruct (evalQ rho a) as [x|]; [|discriminate].
-    rewrite (IHa x eq_refl). inversion H. cbn. rewrite Q2R_opp. reflexivity.
-  - (* Abs *) intros a IHa q H. cbn in H |- *. destruct (evalQ rho a) as [x|]; [|discriminate].
-    rewrite (IHa x eq_refl). inversion H. cbn. rewrite Q2R_abs. reflexivity.
-  - (* Sqrt *) intros a IHa q H. cbn in H |- *. destruct (evalQ rho a) as [x|]; [|discriminate].
-    rewrite (IHa x eq_refl). destruct (Q2R_sqrt x q H) as [Hp Hs].
-    destruct (Rle_dec 0 (Q2R x)); [|contradiction]. rewrite Hs. reflexivity.
-  - (* Pow *) intros a IHa n q H. cbn in H |- *. destruct (evalQ rho a) as [x|]; [|discriminate].
-    rewrite (IHa x eq_refl). inversion H. cbn. rewrite Q2R_pow. reflexivity.
-  - (* Sign *) intros a IHa q H. cbn in H |- *. destruct (evalQ rho a) as [x|]; [|discriminate].
-    rewrite (IHa x eq_refl). inversion H. cbn. rewrite Q2R_sgn. reflexivity.
-  - (* Min *) intros a IHa b IHb q H. cbn in H |- *.
-    destruct (evalQ rho a) as [x|]; [|discriminate]. destruct (evalQ rho b) as [y|]; [|discriminate].
-    rewrite (IHa x eq_refl), (IHb y eq_refl). inversion H. cbn. rewrite Q2R_min. reflexivity.
-  - (* Max *) intros a IHa b IHb q H. cbn in H |- *.
-    destruct (evalQ rho a) as [x|]; [|discriminate]. destruct (evalQ rho b) as [y|]; [|discriminate].
-    rewrite (IHa x eq_refl), (IHb y eq_refl). inversion H. cbn. rewrite Q2R_max. reflexivity.
-  - (* Fn0 *) intros f args _ q H. discriminate.
-  - (* FnH *) intros f args _ q H. discriminate.
-  - (* Ite *) intros c IHc a IHa b IHb q H. rewrite eval_Ite. rewrite evalQ_Ite in H.
-    destruct (evalbQ rho c) as [[|]|] eqn:E; [| |discriminate H]; rewrite (IHc _ eq_refl); auto.
-  - (* BLt *) intros a IHa b IHb r H. rewrite evalb_BLt. rewrite evalbQ_BLt in H. unfold ocmp2 in H.
-    destruct (evalQ rho a) as [x|]; [|discriminate]. destruct (evalQ rho b) as [y|]; [|discriminate].
-    rewrite (IHa x eq_refl), (IHb y eq_refl). inversion H. cbn. rewrite Qltb_R. reflexivity.
-  - (* BLe *) intros a IHa b IHb r H. rewrite evalb_BLe. rewrite evalbQ_BLe in H. unfold ocmp2 in H.
-    destruct (evalQ rho a) as [x|]; [|discriminate]. destruct (evalQ rho b) as [y|]; [|discriminate].
-    rewrite (IHa x eq_refl), (IHb y eq_refl). inversion H. cbn. rewrite Qle_bool_R. reflexivity.
-  - (* BEq *) intros a IHa b IHb r H. rewrite evalb_BEq. rewrite evalbQ_BEq in H. unfold ocmp2 in H.
-    destruct (evalQ rho a) as [x|]; [|discriminate]. destruct (evalQ rho b) as [y|]; [|discriminate].
-    rewrite (IHa x eq_refl), (IHb y eq_refl). inversion H. cbn. rewrite Qeq_bool_R. reflexivity.
-  - (* BAnd *) intros c IHc d IHd r H. cbn in H |- *.
-    destruct (evalbQ rho c) as [x|]; [|discriminate]. destruct (evalbQ rho d) as [y|]; [|discriminate].
-    rewrite (IHc x eq_refl), (IHd y eq_refl). exact H.
-  - (* BOr *) intros c IHc d IHd r H. cbn in H |- *.
-    destruct (evalbQ rho c) as [x|]; [|discriminate]. destruct (evalbQ rho d) as [y|]; [|discriminate].
-    rewrite (IHc x eq_refl), (IHd y eq_refl). exact H.
-  - (* BNot *) intros c IHc r H. cbn in H |- *. destruct (evalbQ rho c) as [x|]; [|discriminate].
-    rewrite (IHc x eq_refl). exact H.
-  - (* BConst *) intros b r H. exact H.
-  - (* BUnknown *) intros s r H. discriminate.
-Qed.
-End Sound.
-
-(* ------------------------------------------------------------------ scaling over Q *)
-Definition scaleQ (G : env) (t : Q) (rho : string -> Q) : string -> Q :=
-  fun x => match G x with Some k => (t ^ k * rho x)%Q | None => rho x end.
-
-Lemma scaleQ_R G t rho : ~ (t == 0)%Q ->
-  (fun x => Q2R (scaleQ G t rho x)) = scale G (Q2R t) (fun x => Q2R (rho x)).
-Proof.
-  intros Ht. apply functional_extensionality. intros x. unfold scaleQ, scale.
-  destruct (G x) as [k|]; [|reflexivity]. rewrite Q2R_mult. rewrite Q2RpowerRZ by (left; exact Ht). reflexivity.
-Qed.
 
 (* a comparison whose decision changes with the length unit *)
 Definition refutes (f : fn_record) (c : bexpr) : Prop :=
@@ -301,3 +81,79 @@ Fixpoint assoc_deg (id : string) (l : list (string * (Z * Z) * dexpr)) : option 
 Definition pick_arg (f : fn_record) (id : string) : dexpr :=
   match assoc_deg id (fn_args f) with Some e => e | None => Const 0 1 end.
 (* BConst true and Const 0 are never refutable, so a refutation of a picked obligation shows it exists *)
+
+(* ------------------------------------------------------------------ the records of the open entry points *)
+Definition lines_end_rec : fn_record :=
+  mkFn "trimesh_lines_end" env_len_trimesh_lines_end env_exc_trimesh_lines_end cmps_trimesh_lines_end
+       rets_trimesh_lines_end args_trimesh_lines_end.
+Definition inside_rec : fn_record :=
+  mkFn "trimesh_inside" env_len_trimesh_inside env_exc_trimesh_inside cmps_trimesh_inside
+       rets_trimesh_inside args_trimesh_inside.
+Definition cylseg_rec : fn_record :=
+  mkFn "cylinder_segment" env_len_cylinder_segment env_exc_cylinder_segment cmps_cylinder_segment
+       rets_cylinder_segment args_cylinder_segment.
+Definition cases_rec : fn_record :=
+  mkFn "cylinder_segment_cases" env_len_cylinder_segment_cases env_exc_cylinder_segment_cases
+       cmps_cylinder_segment_cases rets_cylinder_segment_cases args_cylinder_segment_cases.
+
+Lemma recs_in_functions :
+  In lines_end_rec functions /\ In inside_rec functions /\ In cylseg_rec functions /\ In cases_rec functions.
+Proof. unfold functions. repeat split; simpl; tauto. Qed.
+
+(* all refutations use the unit change t = 2 (every length multiplied by 4); unnamed variables are 0 *)
+Open Scope Q_scope.
+
+(* lines_end_in_trimesh: |(a x b) . d| < 1e-12 -- facet (1,0,0),(0,1,0),(0,0,1), ray from 0 to (0,0,5e-13) *)
+Lemma lines_end_area_refuted :
+  refutes lines_end_rec (pick_cmp lines_end_rec "trimesh_lines_end>lines_end_in_trimesh>np.abs(area1) < eps" 0).
+Proof.
+  apply (refuteQ_sound _ _ 2 [("0.0.0.faces@trimesh_lines_end", 1); ("0.1.1.faces@trimesh_lines_end", 1);
+                              ("0.2.2.faces@trimesh_lines_end", 1);
+                              ("0.1.2.lines@trimesh_lines_end", 1 # 2000000000000)]).
+  vm_compute. reflexivity.
+Qed.
+
+(* lines_end_in_trimesh: |l1 - ref|^2 < 1e-16 -- end point 5e-9 from the reference vertex *)
+Lemma lines_end_coincide_refuted :
+  refutes lines_end_rec (pick_cmp lines_end_rec "trimesh_lines_end>lines_end_in_trimesh>v_norm2(l1 - ref_pts) < eps" 0).
+Proof.
+  apply (refuteQ_sound _ _ 2 [("0.1.0.lines@trimesh_lines_end", 1 # 200000000)]).
+  vm_compute. reflexivity.
+Qed.
+
+(* BHJM_cylinder_segment: r < r2 + 1e-14 -- observer (3,4,0), r2 = 5 - 5e-15 *)
+Lemma cylseg_margin_refuted :
+  refutes cylseg_rec (pick_cmp cylseg_rec "cylinder_segment>BHJM_cylinder_segment>r < r2 + 1e-14" 0).
+Proof.
+  apply (refuteQ_sound _ _ 2 [("0.0.observers@cylinder_segment", 3); ("0.1.observers@cylinder_segment", 4);
+                              ("0.1.dimension@cylinder_segment", 999999999999999 # 200000000000000)]).
+  vm_compute. reflexivity.
+Qed.
+
+(* BHJM_cylinder_segment: close(r, r2) = isclose(rtol=1e-12, atol=1e-12) -- r = 0.005, r2 = 0.005 - 1e-12 *)
+Lemma cylseg_close_refuted :
+  refutes cylseg_rec (pick_cmp cylseg_rec
+    "cylinder_segment>BHJM_cylinder_segment>close(r, r2)>np.isclose(arg1, arg2, rtol=1e-12, atol=1e-12)" 0).
+Proof.
+  apply (refuteQ_sound _ _ 2 [("0.0.observers@cylinder_segment", 3 # 1000); ("0.1.observers@cylinder_segment", 4 # 1000);
+                              ("0.1.dimension@cylinder_segment", 4999999999 # 1000000000000)]).
+  vm_compute. reflexivity.
+Qed.
+
+(* determine_cases: close(r, 0) -- r = 5e-13 *)
+Lemma cases_close_refuted :
+  refutes cases_rec (pick_cmp cases_rec
+    "cylinder_segment_cases>determine_cases>close(r, 0)>np.isclose(arg1, arg2, rtol=1e-12, atol=1e-12)" 0).
+Proof.
+  apply (refuteQ_sound _ _ 2 [("0.r@cylinder_segment_cases", 1 # 2000000000000)]).
+  vm_compute. reflexivity.
+Qed.
+
+(* mask_inside_trimesh: the ray start min(vertices) - 12.0012345 is NOT a length *)
+Lemma ray_start_refuted :
+  refutes_deg inside_rec 2 (pick_arg inside_rec
+    "trimesh_inside>mask_inside_trimesh>lines_end_in_trimesh(test_lines, faces)>arg:lines.0").
+Proof.
+  apply (refuteQ_deg_sound _ _ _ 2 []).
+  vm_compute. reflexivity.
+Qed.
